@@ -522,6 +522,76 @@ theorem update_refuses_other_list (E : Env) (now : Nat) (n : Node) (u : Url) (v 
   cases hv
   exact ⟨s, h1, h2, h3⟩
 
+/-! ### 8. the issuer's `Revoke`: which mechanism, which entry, which revocation document -/
+
+/-- `revokeStatusList` picks the FIRST relevant status entry of the credential — the same entry the verifier's loop reaches
+    first (`revoked_forever_local` / `revoked_forever_remote` are stated for exactly that decomposition) -/
+theorem first_revocation_entry_is_first_relevant (sts : List StatusEntry) (e : StatusEntry) (h : firstRevocationEntry sts = some e) :
+    ∃ pre post, sts = pre ++ e :: post ∧ (∀ s, s ∈ pre → s.relevant = false) ∧ e.type = "StatusList2021Entry" ∧ e.purpose = "revocation" := by
+  induction sts with
+  | nil => cases h
+  | cons st rest ih =>
+    unfold firstRevocationEntry at h
+    by_cases ht : st.type = "StatusList2021Entry"
+    · by_cases hp : st.purpose = "revocation"
+      · simp [ht, hp] at h
+        subst h
+        exact ⟨[], rest, rfl, (by intro s hs; cases hs), ht, hp⟩
+      · simp [ht, hp] at h
+        obtain ⟨pre, post, h1, h2, h3⟩ := ih h
+        refine ⟨st :: pre, post, by rw [h1]; rfl, ?_, h3⟩
+        intro s hs
+        rcases List.mem_cons.mp hs with rfl | hs
+        · simp [StatusEntry.relevant, hp]
+        · exact h2 s hs
+    · simp [ht] at h
+      obtain ⟨pre, post, h1, h2, h3⟩ := ih h
+      refine ⟨st :: pre, post, by rw [h1]; rfl, ?_, h3⟩
+      intro s hs
+      rcases List.mem_cons.mp hs with rfl | hs
+      · simp [StatusEntry.relevant, ht]
+      · exact h2 s hs
+
+/-- `issuer_revoke_status_list_effective`: the issuer revokes a credential that is not did:nuts: the route is the status
+    list, the entry is the credential's first relevant one, and once that `Revoke` succeeded every verification of the
+    credential on the issuing node answers revoked, after any history -/
+theorem issuer_revoke_status_list_effective (E : Env) (K : KeyEnv) (hE : EnvOK E) (w0 : World) (h0 : WInv E w0) (i : Bool) (c : Cred)
+    (id kid sig : String) (date : Nat) (already : Bool) (e : StatusEntry) (n1 : Node)
+    (hroute : issuerRevokeRoute false already c id kid sig date = .statusList e)
+    (hrev : revoke E w0.now (w0.get i) id e = .ok n1) (acts : List Act) :
+    (verify E i (run E K (w0.set i n1) acts) c).1 = .revoked := by
+  unfold issuerRevokeRoute at hroute
+  simp only [Bool.false_eq_true, if_false] at hroute
+  cases hs : c.statuses with
+  | none => rw [hs] at hroute; cases hroute
+  | some sts =>
+    rw [hs] at hroute
+    simp only at hroute
+    cases hf : firstRevocationEntry sts with
+    | none => rw [hf] at hroute; cases hroute
+    | some e' =>
+      rw [hf] at hroute
+      simp only [RevokeRoute.statusList.injEq] at hroute
+      subst hroute
+      obtain ⟨pre, post, hsts, hpre, hty, hpu⟩ := first_revocation_entry_is_first_relevant sts e' hf
+      obtain ⟨j, hj, hmem⟩ := revoke_effective E w0.now (w0.get i) n1 id e' hrev
+      have hp1 : WPrim E K w0 (w0.set i n1) := WPrim.revoke w0 i id e' n1 hrev
+      exact revoked_forever_local E K hE _ (hp1.nodes h0).1 i e'.list j (by rw [get_set_same]; exact hmem) acts c pre post e'
+        (by rw [hs, hsts]) hpre rfl hty hpu hj
+
+/-- `issuer_network_revocation_accepted`: the document `buildRevocation` makes for a credential id (issuer = the DID part of
+    the id, proof by that DID's key) passes `RegisterRevocation` wherever that key resolves and the proof verifies — so the
+    issuer's own revocation of an id-prefixed credential is never refused -/
+theorem issuer_network_revocation_accepted (K : KeyEnv) (n : Node) (id kid sig pk : String) (date : Nat)
+    (hfrag : fragmentOf id ≠ "") (hid : id ≠ "") (hiss : prefixOf id ≠ "") (hkid : prefixOf kid = prefixOf id)
+    (hres : K.resolveKey kid (some date) = some pk) (hsig : K.sigOK pk (buildRevocation id kid sig date) sig = true) :
+    registerRevocation K n (buildRevocation id kid sig date) = .ok { n with netRevs := n.netRevs ++ [buildRevocation id kid sig date] } := by
+  simp [registerRevocation, validateRevocation, buildRevocation, hfrag, hid, hiss, hkid, hres] at hsig ⊢
+  simp [hsig]
+
+example : issuerRevokeRoute false false exCred "did:a#1" "did:a#k" "s" 1 = .statusList exEntry := by decide
+example : issuerRevokeRoute true false exCred "did:nuts:B#1" "did:nuts:B#k" "pkB|did:nuts:B#1" 5 = .network exRevByB := by decide
+
 /-! ### regenerated facts the model relies on -/
 
 theorem fact_bitstring_arithmetic :
@@ -615,6 +685,26 @@ theorem fact_ambassador_transient_errors :
     Facts.C11.ambassadorHandleErrorConds = ["errors.Is(err,context.Canceled) || errors.Is(err,context.DeadlineExceeded)",
       "errors.Is(err,jsonld.ContextURLNotAllowedErr)",
       "errors.As(err,&jsonLDError) && jsonLDError.Code == ld.LoadingRemoteContextFailed && !errors.Is(err,jsonld.ContextURLNotAllowedErr)"] := by
+  decide
+
+set_option maxRecDepth 1000000 in
+/-- coverage audit: the sites around the core mechanism that the model's routing / wiring assumptions rest on — the issuer's
+    `Revoke` routing (did:nuts ⇒ network revocation, else status list), the `revokeStatusList` loop (`continue` on another
+    purpose), `revokeDIDNuts` (already-revoked check, publish, store), `buildRevocation` (issuer = id without path/fragment),
+    the constructors that inject Sign / ResolveKey / VerifySignature into the shared StatusList2021, the credential id and
+    status entry made by `buildAndSignVC`, the ambassador's two subscriptions with their filters, and the revocation
+    store's exact-match query on `subject` -/
+theorem fact_issuer_ambassador_store_sites :
+    Facts.C11.issuerRevoke = ["credentialDIDURL,err := did.ParseDIDURL(credentialID.String())", "if err != nil || credentialDIDURL.Method == didnuts.MethodName", "return i.revokeDIDNuts(ctx,credentialID)", "return nil,i.revokeStatusList(ctx,credentialID)"] ∧
+    Facts.C11.issuerRevokeStatusList = ["cred,err := i.store.GetCredential(credentialID)", "if err != nil", "return err", "statuses,err := cred.CredentialStatuses()", "if err != nil", "return err", "range statuses", "if status.Type == revocation.StatusList2021EntryType", "err = json.Unmarshal(status.Raw(),&slEntry)", "if err != nil", "return err", "if slEntry.StatusPurpose != revocation.StatusPurposeRevocation", "continue", "return i.statusList.Revoke(ctx,credentialID,slEntry)", "return types.ErrStatusNotFound"] ∧
+    Facts.C11.issuerRevokeDIDNuts = ["isRevoked,err := i.isRevoked(credentialID)", "if err != nil", "return nil,fmt.Errorf(\"error while checking revocation status: %w\",err)", "if isRevoked", "return nil,types.ErrRevoked", "revocation,err := i.buildRevocation(ctx,credentialID)", "if err != nil", "return nil,err", "err = i.networkPublisher.PublishRevocation(ctx,*revocation)", "if err != nil", "return nil,fmt.Errorf(\"failed to publish revocation: %w\",err)", "if err != nil", "err := i.store.StoreRevocation(*revocation)", "return nil,fmt.Errorf(\"unable to store revocation: %w\",err)", "return revocation,nil"] ∧
+    Facts.C11.issuerBuildRevocation = ["issuer := credentialID", "issuer.Path = \"\"", "issuer.Fragment = \"\"", "issuerDID,err := did.ParseDID(issuer.String())", "return nil,fmt.Errorf(\"failed to extract issuer: %w\",err)", "keyURI,_,err := i.keyResolver.ResolveKey(*issuerDID,nil,resolver.AssertionMethod)", "revocation := credential.BuildRevocation(issuerDID.URI(),credentialID)", "signingResult,err := ldProof.Sign(ctx,revocationAsMap,webSig,keyURI)"] ∧
+    Facts.C11.issuerWiring = ["statusList.Sign = i.buildJSONLDCredential", "statusList.ResolveKey = i.keyResolver.ResolveKey"] ∧
+    Facts.C11.verifierWiring = ["credentialStatus.VerifySignature = v.VerifySignature"] ∧
+    Facts.C11.issuerStatusEntry = ["credentialID := ssi.MustParseURI(fmt.Sprintf(\"%s#%s\",issuerDID.String(),uuid.New().String()))", "if options.WithStatusListRevocation", "credentialStatusEntry,err := i.statusList.Entry(ctx,*issuerDID,revocation.StatusPurposeRevocation)", "unsignedCredential.CredentialStatus = append(unsignedCredential.CredentialStatus,credentialStatusEntry)"] ∧
+    Facts.C11.ambassadorConfigure = ["err := n.networkClient.Subscribe(\"vcr_vcs\",n.handleNetworkVCs,n.networkClient.WithPersistency(),network.WithSelectionFilter(<*ast.FuncLit>))", "return event.Type == dag.PayloadEventType && event.Transaction.PayloadType() == types.VcDocumentType", "if err != nil", "return err", "return n.networkClient.Subscribe(\"vcr_revocations\",n.handleNetworkRevocations,n.networkClient.WithPersistency(),network.WithSelectionFilter(<*ast.FuncLit>))", "return event.Type == dag.PayloadEventType && event.Transaction.PayloadType() == types.RevocationLDDocumentType"] ∧
+    Facts.C11.leiaGetRevocations = ["query := leia.New(leia.Eq(leia.NewJSONPath(credential.RevocationSubjectPath),leia.MustParseScalar(id.String())))", "results,err := s.revocationCollection().Find(context.Background(),query)", "if err != nil", "return nil,fmt.Errorf(\"error while getting revocation by id: %w\",err)", "if len(results) == 0", "return nil,ErrNotFound", "revocations := make(<*ast.ArrayType>,len(results))", "range results", "revocation := &credential.Revocation{…}", "if err != nil", "err := json.Unmarshal(result,revocation)", "return nil,err", "revocations[i] = revocation", "return revocations,nil"] ∧
+    Facts.C11.verifierIsRevoked = ["_,err := v.store.GetRevocations(credentialID)", "if err != nil", "if errors.Is(err,ErrNotFound)", "return false,nil", "return false,err", "return true,nil"] := by
   decide
 
 end Nuts.C11.Props
